@@ -9,6 +9,10 @@ CLAIMED = {
          "CFG dominance / fence / guard rules + enumerated index tables over work_stealing_deque.c and the scheduler"),
  "C03": ("lock/trylock/unlock decision tables over the atomic counter's old value, memory orders, waker loop (yield not spin, exit only after count wakes, node hand-back), single consumer and counter-writer tables",
          "enumerated forced-branch tables over atomic results + CFG dominance / who-may-call rules on fiber_mutex.c and the shared waker"),
+ "C04": ("detach_state exchange-only writer table; per-function action tables over the exchanged old value (park / take+READY+schedule / error); result store/copy/read order rules; no touch of the joined fiber after waking it; clear_or_wait loop shape",
+         "enumerated forced-branch tables over atomic exchange results + CFG dominance / no-touch rules on fiber.c"),
+ "C05": ("register-before-enqueue order, mutex released only through the deferred slot, re-lock on every return; signal/broadcast lock pairing, claim tables and wake counts; single-consumer and counter-writer tables",
+         "CFG dominance / lock-pair rules + enumerated claim tables on fiber_cond.c and the enqueue helper"),
  "C06": ("wait/trywait/post decision tables over the counter value and wake result, increment-after-wake order, no exit without wake-or-increment, counter-writer table, waker count semantics",
          "enumerated forced-branch tables over atomic results + CFG dominance rules on fiber_semaphore.c"),
  "C08": ("fd-table bounds followed inter-procedurally from the libc shims, should_block truth table, F_SETFL/FIONBIO mode tables, retry-template agreement of all shims under enumerated scenarios, fd>=0 comparisons, shim pointer resolution, close/poller lock and order rules",
